@@ -754,7 +754,10 @@ fn lift_arm(f: Found, pat: &str, nth: usize, after_pat: Option<&str>) -> Result<
                         // trailing commas inside the pattern are not significant
                         let strip = |x: &str| x.replace(",}", "}").replace(",)", ")");
                         if !seen.iter().any(|s| strip(s) == strip(ap)) {
+                            // not the match that is meant (it has no earlier arm with that pattern)
                             self.after_missing = true;
+                            seen.push(p);
+                            continue;
                         }
                     }
                     self.hits.push((a.body.span().byte_range(), is_block));
@@ -772,9 +775,7 @@ fn lift_arm(f: Found, pat: &str, nth: usize, after_pat: Option<&str>) -> Result<
     if nth == 0 && v.hits.len() > 1 {
         bail!("ambiguous anchor: match arm `{}` found {} times in {}; use 'nth K'", pat, v.hits.len(), f.origin);
     }
-    if v.after_missing {
-        bail!("lost anchor: match arm `{}` is no longer preceded by an arm `{}` in {}", pat, after_pat.unwrap_or(""), f.origin);
-    }
+    let _ = v.after_missing;
     let (r, is_block) = v.hits[nth].clone();
     let body_line = f.body_line_start + line_of(&f.body_text, r.start) - 1;
     let txt = &f.body_text[r.clone()];
